@@ -74,6 +74,18 @@ func c19Body(p c19Params, out *c19Obs) func() {
 			for i := 0; i < 100; i++ {
 				cl.Script["hbase:meta,,1"] = append(cl.Script["hbase:meta,,1"], sim.ClsCallQueue)
 			}
+		case "split-away", "merge-away", "dropped":
+			// the only cached region of its server is replaced (or vanishes): the connection to
+			// that server no longer serves any cached region, yet Close() must still close it
+			ra := regionOf(cl, "t", "a")
+			switch p.env {
+			case "split-away":
+				cl.Split(ra, "c", "rs3:1", "rs3:1")
+			case "merge-away":
+				cl.Merge(ra, regionOf(cl, "t", "x"), "rs3:1")
+			default:
+				cl.DropTable("t")
+			}
 		case "probe-nsre":
 			for i := 0; i < 100; i++ {
 				cl.Script["t"] = append(cl.Script["t"], sim.ClsNSRE)
@@ -146,7 +158,7 @@ func c19Check(p c19Params, out *c19Obs) func(res *vrt.Result) *explore.Finding {
 		}
 		w := out.w
 		for i, err := range out.errs {
-			if err != nil && !closedErr(err) {
+			if err != nil && !closedErr(err) && !(p.env == "dropped" && err == gohbase.TableNotFound) {
 				return &explore.Finding{Class: "call-around-close-returns-other-error", Msg: fmt.Sprintf("request %d: %v (%T)\n%s", i, err, err, p)}
 			}
 			if out.retAt[i] > w.closedAt+35*time.Second {
@@ -209,6 +221,12 @@ func c19Units(thorough bool) []*explore.Unit {
 		}
 	}
 	units = append(units, c19DialUnits()...)
+	for _, env := range []string{"split-away", "merge-away", "dropped"} {
+		for at := 2; at <= 8; at += 2 {
+			add(c19Params{layout: "spread", keys: []string{"a"}, warm: []string{"a", "x"}, closeAt: at, env: env}, 1)
+			add(c19Params{layout: "spread", keys: []string{"a", "a"}, warm: []string{"a"}, closeAt: at, env: env}, 1)
+		}
+	}
 	if thorough {
 		add(c19Params{layout: "three", keys: []string{"a", "k", "x"}, closeAt: -1}, 2)
 		add(c19Params{layout: "coloc", keys: []string{"a", "x"}, closeAt: -1}, 3)
